@@ -61,7 +61,7 @@ pub fn draw_ent() -> EntDraw {
         nhdr: kani::any(),
     };
     kani::assume(d.etag <= 3);
-    kani::assume(d.nhdr <= 2);
+    kani::assume(d.nhdr <= 3);
     kani::assume(d.m_nanos < 1_000_000_000 && d.now_nanos < 1_000_000_000);
     // well-formed entity / sane clock: between the epoch and year 9999 (httpdate's domain)
     kani::assume(d.m_secs <= httpdate::MAX_SECS && d.now_secs <= httpdate::MAX_SECS);
@@ -144,8 +144,11 @@ pub fn check_common_headers(sn: &Snap<'_>, d: &EntDraw) {
 
 pub fn entity_headers_present(sn: &Snap<'_>, d: &EntDraw) -> bool {
     let a = d.nhdr < 1 || (sn.count[S_CONTENT_TYPE] == 1 && bytes_eq(sn.val[S_CONTENT_TYPE].unwrap(), EH0.1.as_bytes()));
-    let b = d.nhdr < 2 || (sn.count[S_CONTENT_LANGUAGE] == 1 && bytes_eq(sn.val[S_CONTENT_LANGUAGE].unwrap(), EH1.1.as_bytes()));
-    a && b
+    let b = d.nhdr < 2
+        || (sn.count[S_CONTENT_LANGUAGE] == (if d.nhdr >= 3 { 2 } else { 1 }) && bytes_eq(sn.val[S_CONTENT_LANGUAGE].unwrap(), EH1.1.as_bytes()));
+    // every value of a repeated header field, in order
+    let c = d.nhdr < 3 || (sn.lang2.is_some() && bytes_eq(sn.lang2.unwrap(), EH2.1.as_bytes()));
+    a && b && c
 }
 pub fn entity_headers_absent(sn: &Snap<'_>) -> bool {
     sn.count[S_CONTENT_LANGUAGE] == 0 && sn.count[S_CONTENT_TYPE] == 0
